@@ -500,3 +500,164 @@ int run_parent_race(const Args& a) {
     if (shaped < 10) { rep.inconclusive("fewer than 10 rounds reached the required shape"); }
     return rep.finish();
 }
+
+// C08: "unlink of an emptied leaf" racing "split of its left neighbour".
+// Three adjacent leaves P (full), M (one key), X. Thread A removes M's key (M
+// unlinks itself: locks P, redirects P.next and X.prev), thread B inserts into
+// P (P splits; the new right half must become M's / X's predecessor). Sleeps
+// after every lock release.
+int run_unlink_race(const Args& a) {
+    uint64_t seed = a.num("seed", 1);
+    uint64_t rounds = a.num("rounds", 1000);
+    Report rep(a.str("prop", "C08"), "conc_unlink_race", seed);
+    rep.set_rule("per round: a layer (optionally below an 8-byte prefix) of 4..6 leaves built by ascending inserts; one leaf P is filled to 15 entries through gap keys, its right neighbour M is thinned to 1..2 keys; A removes M's keys (M unlinks "
+                 "itself from the leaf chain through P), B inserts a gap key into P (split), C scans forward and iterates backward; sleeps of up to 300 us after every lock release. Afterwards (quiescent): walker (leaf chain prev/next in "
+                 "both directions, parent pointers, separators), full forward scan and backward cursor equal to the model; then the right neighbour X is emptied as well (it unlinks through whatever prev pointer it has) and the checks are "
+                 "repeated. distinct_nontrivial = rounds by (which leaf is P, prefix, keys left in M, who finished first)");
+    yk::init();
+    Rng r(seed);
+    std::string storage = "ur";
+    std::atomic<uint64_t> next_id{1};
+    Session main_ses;
+    uint64_t shaped = 0;
+    for (uint64_t rd = 0; rd < rounds && rep.violations() < 6; ++rd) {
+        yk::create_storage(storage);
+        yk::tree_instance* ti = nullptr;
+        yk::find_storage(storage, &ti);
+        std::string prefix = r.chance(1, 3) ? "UNLINK01" : "";
+        Model model;
+        main_ses.reenter();
+        auto put = [&](const std::string& k) {
+            std::string v = make_value(next_id.fetch_add(1), k, 24);
+            yput(main_ses.tok, storage, k, v);
+            model[k] = v;
+            g_progress.fetch_add(1, std::memory_order_relaxed);
+        };
+        std::size_t nkeys = r.range(33, 50);
+        auto key_of = [&](std::size_t i, int gap) {
+            char b[16];
+            snprintf(b, sizeof b, "%04zu%d", i, gap);
+            return prefix + b;
+        };
+        for (std::size_t i = 0; i < nkeys; ++i) { put(key_of(i, 0)); }
+        // leaves of the layer, left to right
+        auto leaves = [&]() {
+            std::vector<yk::border_node*> out;
+            yk::base_node* n = ti->load_root_ptr();
+            if (!prefix.empty() && n != nullptr) {
+                auto* top = dynamic_cast<yk::border_node*>(n);
+                n = top != nullptr && top->get_permutation_cnk() != 0 ? top->lv_[top->permutation_.get_index_of_rank(0)].get_next_layer() : nullptr;
+            }
+            while (n != nullptr && !n->get_version_border()) { n = dynamic_cast<yk::interior_node*>(n)->get_child_at(0); }
+            for (auto* b = dynamic_cast<yk::border_node*>(n); b != nullptr; b = b->get_next()) { out.push_back(b); }
+            return out;
+        };
+        auto keys_of = [&](yk::border_node* L) {
+            std::vector<std::string> ks;
+            for (std::size_t rk = 0; rk < L->get_permutation_cnk(); ++rk) {
+                std::size_t idx = L->permutation_.get_index_of_rank(rk);
+                uint64_t sl = L->key_slice_[idx];
+                ks.push_back(prefix + std::string(reinterpret_cast<char*>(&sl), std::min<std::size_t>(L->key_length_[idx], 8))); // NOLINT
+            }
+            return ks;
+        };
+        std::vector<yk::border_node*> lv = leaves();
+        if (lv.size() < 4) {
+            main_ses.leave();
+            yk::delete_storage(storage);
+            continue;
+        }
+        std::size_t pi = r.below(lv.size() - 2); // P = lv[pi], M = lv[pi+1], X = lv[pi+2]
+        std::vector<std::string> pk = keys_of(lv[pi]), mk = keys_of(lv[pi + 1]), xk = keys_of(lv[pi + 2]);
+        // fill P to 15 with gap keys (they sort right after an existing key of P)
+        std::vector<std::string> gaps;
+        for (auto& k : pk) {
+            for (int g = 1; g <= 3; ++g) { gaps.push_back(k.substr(0, k.size() - 1) + static_cast<char>('0' + g)); }
+        }
+        std::size_t gi = 0;
+        while (lv[pi]->get_permutation_cnk() < 15 && gi < gaps.size()) { put(gaps[gi++]); }
+        if (lv[pi]->get_permutation_cnk() != 15 || gi >= gaps.size()) {
+            main_ses.leave();
+            yk::delete_storage(storage);
+            continue;
+        }
+        std::string split_key = gaps[gi];
+        std::size_t keep = r.chance(2, 3) ? 1 : 2;
+        while (mk.size() > keep) {
+            std::size_t i = r.below(mk.size());
+            yk::remove(main_ses.tok, storage, mk[i]);
+            model.erase(mk[i]);
+            mk.erase(mk.begin() + static_cast<long>(i));
+        }
+        main_ses.leave();
+        ++shaped;
+        ctl::Profile prof;
+        prof.at(ctl::point::LOCK_REL) = ctl::Rule{r.chance(3, 4) ? 65535U : 20000U, 3, static_cast<uint32_t>(r.range(50, 300))};
+        ctl::g_profile.store(&prof);
+        uint32_t skew[3] = {static_cast<uint32_t>(r.below(400)), static_cast<uint32_t>(r.below(400)), 0};
+        status out[3] = {status::OK, status::OK, status::OK};
+        uint64_t fin_stamp[2] = {0, 0};
+        std::string reader_fail;
+        std::atomic<int> writers_done{0};
+        std::string split_val = make_value(next_id.fetch_add(1), split_key, 24);
+        run_round(3, seed * 15485863 + rd, [&](int tid) {
+            Session s;
+            s.reenter();
+            for (uint32_t k = skew[tid]; k > 0; --k) { _mm_pause(); }
+            if (tid == 0) {
+                for (auto& k : mk) {
+                    status st_ = yk::remove(s.tok, storage, k);
+                    if (st_ != status::OK) { out[0] = st_; }
+                }
+                fin_stamp[0] = stamp();
+                writers_done.fetch_add(1);
+            } else if (tid == 1) {
+                out[1] = yput(s.tok, storage, split_key, split_val, true);
+                fin_stamp[1] = stamp();
+                writers_done.fetch_add(1);
+            } else {
+                for (int i = 0; (i < 3 || writers_done.load() < 2) && i < 2000; ++i) {
+                    std::vector<ScanTuple> tl;
+                    status ss = yk::scan<char>(storage, "", scan_endpoint::INF, "", scan_endpoint::INF, tl, nullptr, 0, false);
+                    if (ss != status::OK) { reader_fail = "scan = " + st(ss); }
+                    for (std::size_t j = 1; j < tl.size(); ++j) {
+                        if (!(std::get<0>(tl[j - 1]) < std::get<0>(tl[j]))) { reader_fail = "scan not strictly ascending"; }
+                    }
+                    for (auto& k : xk) {
+                        bool found = false;
+                        for (auto& t : tl) {
+                            if (std::get<0>(t) == k) { found = true; }
+                        }
+                        if (!found) { reader_fail = "scan missed the never-touched key " + k; }
+                    }
+                    g_progress.fetch_add(1, std::memory_order_relaxed);
+                }
+            }
+            s.leave();
+        });
+        ctl::g_profile.store(nullptr);
+        rep.eval();
+        for (auto& k : mk) { model.erase(k); }
+        model[split_key] = split_val;
+        if (out[0] != status::OK || out[1] != status::OK) { rep.violation("unlinkrace:writer-status", "remove / insert failed", JObj().str("remove", st(out[0])).str("put", st(out[1])).done()); }
+        if (!reader_fail.empty()) { rep.violation("unlinkrace:reader-failed", reader_fail, JObj().num("round", rd).done()); }
+        coherence_check(rep, storage, model, alloc::mode() == alloc::Mode::FULL, nullptr);
+        // X unlinks through its prev pointer
+        main_ses.reenter();
+        for (auto& k : xk) {
+            if (yk::remove(main_ses.tok, storage, k) == status::OK) { model.erase(k); }
+            g_progress.fetch_add(1, std::memory_order_relaxed);
+        }
+        main_ses.leave();
+        coherence_check(rep, storage, model, alloc::mode() == alloc::Mode::FULL, nullptr);
+        rep.count("rounds");
+        rep.distinct(mix64(pi, mix64(prefix.size(), mix64(keep, fin_stamp[0] < fin_stamp[1] ? 1 : 0))));
+        if (rd == 0) { rep.sample(JObj().num("leaves", lv.size()).num("p_index", pi).num("keys_left_in_m", keep).str("prefix", prefix).done()); }
+        yk::delete_storage(storage);
+    }
+    rep.count("rounds_with_the_shape", shaped);
+    yk::fin();
+    drain_alloc_problems(rep);
+    if (shaped < 10) { rep.inconclusive("fewer than 10 rounds reached the required shape"); }
+    return rep.finish();
+}
